@@ -27,6 +27,8 @@ type exec struct {
 	soloK  []soloKey
 	cache  *cacheModel
 	stop   bool // global state is wedged (modelled deadlock): stop executing
+	// per shared expression: operations whose result was compared with the oracle
+	usedCompared map[int]int
 }
 
 type soloKey struct {
@@ -39,7 +41,7 @@ type soloKey struct {
 }
 
 func newExec(s *scn.Scenario, opt Options) *exec {
-	x := &exec{s: s, res: &Result{Stats: NewStats()}, solos: map[string]Outcome{}}
+	x := &exec{s: s, res: &Result{Stats: NewStats()}, solos: map[string]Outcome{}, usedCompared: map[int]int{}}
 	x.sim = &Sim{cfg: s.Cfg, st: x.res.Stats, trace: opt.Trace}
 	x.sim.current.Store(-1)
 	for i, d := range s.Docs {
@@ -229,6 +231,7 @@ func (x *exec) compareOutcome(step int, api, text string, got, want Outcome, fau
 		return
 	}
 	x.res.Stats.OpsCompared++
+	x.usedCompared[int(scn.HashString(text)&0x7fffffff)]++
 	if got.Key() == want.Key() {
 		return
 	}
@@ -360,7 +363,13 @@ func (x *exec) histC04() {
 		x.res.Stats.Probes["interleaved_handles"] += interleaved
 		x.res.Stats.Faults["interleave"] += interleaved
 	}
-	x.res.Nontrivial = len(s.Steps) >= 2
+	// non-trivial: some shared expression was really used at least twice with
+	// the oracle applied (the property is about re-use)
+	for _, n := range x.usedCompared {
+		if n >= 2 {
+			x.res.Nontrivial = true
+		}
+	}
 }
 
 // advance performs n MoveNext calls on h, checking each against the reference.
@@ -394,6 +403,9 @@ func (x *exec) advance(step int, h *handle, n, crash int) {
 // checkStep compares one MoveNext result with position h.pos of the reference.
 func (x *exec) checkStep(step int, h *handle, ok bool, id int, tail, text string) {
 	x.res.Stats.OpsCompared++
+	if h.pos == 0 {
+		x.usedCompared[int(scn.HashString(text)&0x7fffffff)]++
+	}
 	what := fmt.Sprintf("%s(%s) iterator, MoveNext #%d", h.api, text, h.pos+1)
 	var want string
 	if h.pos < len(h.want.IDs) {
